@@ -38,6 +38,75 @@ CALLER_CTX = ["Subscription.Next", "TopicEventHandler.NextPeerEvent"]
 DURING = {"handling", "handoff", "validator", "sendq", "barefull"}
 
 
+# (goroutine, blocking point) obligations: every goroutine the library starts must have been observed alive and
+# blocked at each of its blocking points at the instant of the cancellation in at least one scenario. A point is
+# "root function | innermost library function | statement" as rendered by the driver from the goroutine dump
+# and the source line (a select is rendered with the heads of its cases, so a dropped arm changes the name).
+# Third element: families in which the point counts (two selects of one function can read the same).
+CTX = r"case <-(gs\.p\.|d\.p\.|v\.p\.|p\.)?ctx\.Done\(\)"
+GOROUTINE_POINTS = [
+    ("processLoop: main select", r"^PubSub\.processLoop \| PubSub\.processLoop \| select\{.*case thunk := <-p\.eval;.*case <-ctx\.Done\(\)\}$", None),
+    ("processLoop: inside an application callback (parked)", r"^PubSub\.processLoop \| (pubsubTracer\.\w+|partialmessages\.PartialMessagesExtension) \| ", None),
+    ("watchForNewPeers: select", r"^PubSub\.watchForNewPeers \| PubSub\.watchForNewPeers \| select\{case <-ctx\.Done\(\); case ev = <-sub\.Out\(\)\}$", None),
+    ("handleNewPeer: in host.NewStream", r"^PubSub\.handleNewPeer \| PubSub\.handleNewPeer \| s, err := p\.host\.NewStream\(ctx", None),
+    ("handleNewPeer: newPeerError hand-off", r"^PubSub\.handleNewPeer \| PubSub\.handleNewPeer \| select\{case p\.newPeerError <- pid; case <-ctx\.Done\(\)\}$", None),
+    ("handleNewPeer: newPeerStream hand-off", r"^PubSub\.handleNewPeer \| PubSub\.handleNewPeer \| select\{case p\.newPeerStream <- peerOutgoingStream\{.*; case <-ctx\.Done\(\)\}$", None),
+    ("handleNewPeerWithBackoff: back-off timer", r"^PubSub\.handleNewPeerWithBackoff \| PubSub\.handleNewPeerWithBackoff \| select\{case <-time\.After\(backoff\); case <-ctx\.Done\(\)\}$", None),
+    ("announceRetry: sleeping", r"^PubSub\.announceRetry \| PubSub\.announceRetry \| time\.Sleep\(", None),
+    ("announceRetry: eval hand-off", r"^PubSub\.announceRetry \| PubSub\.announceRetry \| select\{case p\.eval <- retry; case <-p\.ctx\.Done\(\)\}$", None),
+    ("handleNewStream: waiting for the previous handler", r"\| PubSub\.handleNewStream \| select\{case <-prev\.done; case <-p\.ctx\.Done\(\)\}$", None),
+    ("handleNewStream: NewStream hand-off (incoming full)", r"\| PubSub\.handleNewStream \| select\{case p\.incoming <- incomingUnion\{kind: incomingKindNewStream, s: s\}; case <-p\.ctx\.Done\(\)\}$", None),
+    ("handleNewStream: reading the stream", r"\| PubSub\.handleNewStream \| .*r\.(NextMsgLen|ReadMsg)\(\)", None),
+    ("handleNewStream: RPC hand-off (incoming full)", r"\| PubSub\.handleNewStream \| select\{case p\.incoming <- incomingUnion; case <-p\.ctx\.Done\(\)\}$", None),
+    ("handleNewStream: ClosedStream hand-off (incoming full)", r"\| PubSub\.handleNewStream\.func1 \| select\{case p\.incoming <- incomingUnion\{kind: incomingKindClosedStream, s: s\}; case <-p\.ctx\.Done\(\)\}$", None),
+    ("handleSendingMessages: waiting for the hello", r"^PubSub\.handleSendingMessages \| PubSub\.handleSendingMessages \| select\{case rpc := <-firstMessage; case <-ctx\.Done\(\)\}$", None),
+    ("handleSendingMessages: in rpcQueue.Pop", r"^PubSub\.handleSendingMessages \| rpcQueue\.Pop \| q\.dataAvailable\.Wait\(\)$", None),
+    ("handleSendingMessages: in a stalled stream write", r"^PubSub\.handleSendingMessages \| PubSub\.handleSendingMessages\.func1 \| _, err = s\.Write\(buf\)$", None),
+    ("handlePeerDead: reading the stream", r"^PubSub\.handlePeerDead \| PubSub\.handlePeerDead \| _, err := s\.Read\(", None),
+    ("heartbeatTimer: initial delay", r"^GossipSubRouter\.heartbeatTimer \| GossipSubRouter\.heartbeatTimer \| select\{case <-time\.After\(gs\.params\.HeartbeatInitialDelay\); case <-gs\.p\.ctx\.Done\(\)\}$", None),
+    ("heartbeatTimer: first eval hand-off", r"^GossipSubRouter\.heartbeatTimer \| GossipSubRouter\.heartbeatTimer \| select\{case gs\.p\.eval <- gs\.heartbeat; case <-gs\.p\.ctx\.Done\(\)\}$", ["early-park"]),
+    ("heartbeatTimer: ticker", r"^GossipSubRouter\.heartbeatTimer \| GossipSubRouter\.heartbeatTimer \| select\{case <-ticker\.C; case <-gs\.p\.ctx\.Done\(\)\}$", None),
+    ("heartbeatTimer: eval hand-off at a tick", r"^GossipSubRouter\.heartbeatTimer \| GossipSubRouter\.heartbeatTimer \| select\{case gs\.p\.eval <- gs\.heartbeat; case <-gs\.p\.ctx\.Done\(\)\}$", ["", "retry-hand"]),
+    ("connector: select", r"^GossipSubRouter\.connector \| GossipSubRouter\.connector \| select\{case ci := <-gs\.connect; case <-gs\.p\.ctx\.Done\(\)\}$", None),
+    ("connector: in host.Connect", r"^GossipSubRouter\.connector \| GossipSubRouter\.connector \| err := gs\.p\.host\.Connect\(ctx", None),
+    ("manageAddrBook: select", r"^GossipSubRouter\.manageAddrBook \| GossipSubRouter\.manageAddrBook \| select\{case <-gs\.p\.ctx\.Done\(\); case ev := <-sub\.Out\(\)\}$", None),
+    ("direct-peer goroutine of Attach: initial delay", r"^GossipSubRouter\.Attach\.func1 \| GossipSubRouter\.Attach\.func1 \| time\.Sleep\(gs\.params\.DirectConnectInitialDelay\)$", None),
+    ("direct-peer goroutine of Attach: send on gs.connect", r"^GossipSubRouter\.Attach\.func1 \| GossipSubRouter\.Attach\.func1 \| .*gs\.connect <- connectInfo", None),
+    ("directConnect goroutine: send on gs.connect", r"^GossipSubRouter\.directConnect\.func1 \| GossipSubRouter\.directConnect\.func1 \| .*gs\.connect <- connectInfo", None),
+    ("peerGater.background: select", r"^peerGater\.background \| peerGater\.background \| select\{case <-tick\.C; case <-ctx\.Done\(\)\}$", None),
+    ("peerScore.background: select", r"^peerScore\.background \| peerScore\.background \| select\{.*case <-ctx\.Done\(\)\}$", None),
+    ("backoff.cleanupLoop: select", r"^backoff\.cleanupLoop \| backoff\.cleanupLoop \| select\{case <-ctx\.Done\(\); case <-ticker\.C\}$", None),
+    ("timecache.background (seen cache): select", r"^timecache\.background \| timecache\.background \| select\{case now := <-ticker\.C; case <-ctx\.Done\(\)\}$", None),
+    ("validateWorker: select", r"^validation\.validateWorker \| validation\.validateWorker \| select\{case req := <-v\.validateQ; case <-v\.p\.ctx\.Done\(\)\}$", None),
+    ("validateWorker: inside an inline validator", r"^validation\.validateWorker \| validatorImpl\.validateMsg \| r := val\.validate\(ctx, src, msg\)$", None),
+    ("validateWorker: sendMsgBlocking (sendMsg full)", r"^validation\.validateWorker \| validation\.sendMsgBlocking \| select\{case v\.p\.sendMsg <- msg; case <-v\.p\.ctx\.Done\(\)\}$", None),
+    ("validation goroutine: inside the validator", r"^validation\.validate\.func1 \| validatorImpl\.validateMsg \| r := val\.validate\(ctx, src, msg\)$", None),
+    ("validation goroutine: sendMsgBlocking (sendMsg full)", r"^validation\.validate\.func1 \| validation\.sendMsgBlocking \| select\{case v\.p\.sendMsg <- msg; case <-v\.p\.ctx\.Done\(\)\}$", None),
+    ("validation goroutine: waiting for its validators (validateTopic)", r"^validation\.validate\.func1 \| validation\.validateTopic \| switch <-rch \{$", None),
+    ("per-validator goroutine of validateTopic: inside the validator", r"^validation\.validateTopic\.func1 \| validatorImpl\.validateMsg \| r := val\.validate\(ctx, src, msg\)$", None),
+    ("discoverLoop: select", r"^discover\.discoverLoop \| discover\.discoverLoop \| select\{case discover := <-d\.discoverQ; case topic := <-d\.done; case <-d\.p\.ctx\.Done\(\)\}$", None),
+    ("pollTimer: initial delay", r"^discover\.pollTimer \| discover\.pollTimer \| select\{case <-time\.After\(DiscoveryPollInitialDelay\); case <-d\.p\.ctx\.Done\(\)\}$", None),
+    ("pollTimer: first eval hand-off", r"^discover\.pollTimer \| discover\.pollTimer \| select\{case d\.p\.eval <- d\.requestDiscovery; case <-d\.p\.ctx\.Done\(\)\}$", ["early-park"]),
+    ("pollTimer: ticker", r"^discover\.pollTimer \| discover\.pollTimer \| select\{case <-ticker\.C; case <-d\.p\.ctx\.Done\(\)\}$", None),
+    ("pollTimer: eval hand-off at a tick", r"^discover\.pollTimer \| discover\.pollTimer \| select\{case d\.p\.eval <- d\.requestDiscovery; case <-d\.p\.ctx\.Done\(\)\}$", [""]),
+    ("discovery goroutine of discoverLoop: inside handleDiscovery", r"^discover\.discoverLoop\.func1 \| discover\.handleDiscovery \| ", None),
+    ("advertising goroutine: timer", r"^discover\.Advertise\.func1 \| discover\.Advertise\.func1 \| select\{case <-t\.C; case <-advertisingCtx\.Done\(\)\}$", None),
+]
+# goroutines / blocking points that no scenario reaches, and why (reported in the evidence):
+UNREACHED_POINTS = {
+    "processLoop: s.FirstMessage <- helloPacket": "fresh channel of capacity 1, written once: never blocks",
+    "processLoop: reply sends (treq.resp, req.resp, preq.resp)": "buffered (1), or unbuffered with the caller already in its receive (ListPeers): never block",
+    "processLoop: requestDiscovery's send on discoverQ": "blocks only with 32 requests pending and a live discoverLoop, which drains them at once; not forced",
+    "discovery goroutine: d.done <- topic": "discoverLoop is always receptive before the cancellation; the point is only reached AFTER Cancel (then the leftover inventory judges it: seeded bare send is caught)",
+    "discovery goroutine / validateTopic goroutine: discover.done <- , rch <-": "buffered to the number of senders: never block",
+    "advertising / discovery goroutine inside discovery.Advertise / FindPeers": "inside the application's discovery service, which is handed a context derived from the instance context",
+    "peerScore.inspect / inspectEx goroutines": "the goroutine IS the application's function (go ps.inspect(scores)): nothing of the library to judge",
+    "JSONTracer / PBTracer / RemoteTracer doWrite": "started by the application's tracer constructor and stopped by its Close(), not bound to the PubSub context",
+    "rpcQueue.Pop's context.AfterFunc goroutine": "runs once at the cancellation (lock, broadcast, unlock) and ends: no blocking point before Cancel",
+    "TimeCachedBlacklist sweeper (timecache.background)": "known finding D15 (never stopped); exercised by the tcbl scenarios",
+}
+
+
 def all_apis():
     out = []
     for l in APIS.values():
@@ -189,12 +258,31 @@ def plan(ctx, shapes, budget):
     # mandatory in both tiers: a BACKLOG of validations (40 > the 32 slots of sendMsg) in progress at the
     # cancellation and finishing after it - local Publish callers / received messages (asynchronous validator
     # goroutines and both workers) - with the loop gone and with the loop parked at Cancel
+    def fixed_scn(**kw):
+        d = {"id": len(scns) + 1, "shape": 0, "disc": False, "tcbl": False, "backlog": "", "parker": 0,
+             "calls": [{"api": "PubSub.GetTopics", "pat": "SelSend_Recv", "phase": "before"}], "post": [],
+             "tick": False, "wval": False, "batchq": 0, "valctx": False, "fam": "", "backlogpre": False, "defval": False}
+        d.update(kw)
+        scns.append(d)
+
     for r in ROUTERS:
         for b in ("local", "remote"):
             for pk in (0, -1):
-                scns.append({"id": len(scns) + 1, "shape": 0, "router": r, "disc": False, "tcbl": False, "backlog": b, "parker": pk,
-                             "calls": [{"api": "PubSub.GetTopics", "pat": "SelSend_Recv", "phase": "before"}], "post": [],
-                             "tick": False, "wval": False, "batchq": 0, "valctx": False})
+                fixed_scn(router=r, backlog=b, parker=pk)
+            # the backlog finishes validating while the loop is parked BEFORE the cancellation: validation
+            # goroutines and workers sit in sendMsgBlocking at the instant of Cancel
+            fixed_scn(router=r, backlog=b, parker=-1, backlogpre=True)
+        # received messages with a default validator configured: the multi-validator path (validateTopic)
+        fixed_scn(router=r, backlog="remote", parker=0, defval=True)
+    # mandatory in both tiers: every goroutine the library starts, alive and blocked at each of its blocking
+    # points at the instant of the cancellation (GOROUTINE_POINTS); the inventory after the shutdown judges
+    for r in ROUTERS:
+        for fam in ("retry-sleep", "retry-hand", "flood", "newpeer", "backoff"):
+            fixed_scn(router=r, fam=fam, calls=[], valctx=True)
+    for fam in ("early-cancel", "early-park"):
+        fixed_scn(router="gossipsub", fam=fam, disc=True, calls=[], valctx=True)
+        fixed_scn(router="floodsub", fam=fam, disc=True, calls=[], valctx=True)
+    fixed_scn(router="gossipsub", fam="direct", calls=[], valctx=True)
     return scns, need
 
 
@@ -263,21 +351,25 @@ def run(ctx):
     # 1. the model: the repaired behaviour satisfies the three properties; the code as found (bare
     #    sends, D9 / D10) and a seeded unbuffered reply MUST fail (non-vacuity). The configurations
     #    run in the background (<= 8 TLC workers in total) while the replay goes on.
-    jobs = [dict(cfg="MCLifecycle", workers=3), dict(cfg="MCLifecycleSmall"),
+    jobs = [dict(cfg="MCLifecycle", workers=2), dict(cfg="MCLifecycleSmall"),
             dict(cfg="MCLifecycleD9", ok=False, prop="P_C14_Returns_POR"),
             dict(cfg="MCLifecycleD10", ok=False, prop="P_C14_Returns_POR"),
             dict(cfg="MCLifecycleUnbuf", ok=False, prop="P_C14_Exit_POR"),
             dict(cfg="MCLifecycleSmallD9", ok=False, prop="LiveReturns"),
             dict(cfg="MCLifecycleSendMsg", ok=False, prop="P_C14_Returns_POR"),     # sendMsgBlocking without its ctx arm:
             dict(cfg="MCLifecycleSendMsgW", ok=False, prop="P_C14_Exit_POR"),       # callers block / the worker leaks
-            dict(cfg="MCLifecycleWorker2")]
+            dict(cfg="MCLifecycleWorker2"),
+            dict(cfg="MCLifecycleReaderCTA", ok=False, prop="P_C14_Exit_POR"),      # handleNewStream: ctx.Err() check, then a bare send
+            dict(cfg="MCLifecycleRetry"),
+            dict(cfg="MCLifecycleRetryBare", ok=False, prop="P_C14_Exit_POR"),      # announceRetry without its ctx arm
+            dict(cfg="MCLifecycleDirect"),
+            dict(cfg="MCLifecycleDirectBare", ok=False, prop="P_C14_Exit_POR")]     # as found (D27): bare sends on gs.connect
     if ctx.thorough:
-        jobs[0]["workers"] = 2
-        jobs = [dict(cfg="MCLifecycle3", workers=3, timeout=1500, allow_timeout=True)] + jobs + [
+        jobs = [dict(cfg="MCLifecycle3", workers=2, timeout=2400, allow_timeout=True)] + jobs + [
             dict(cfg="MCLifecycleAux", timeout=900), dict(cfg="MCLifecycleDisc2"),
             dict(cfg="MCLifecycleD10c2", ok=False, prop="P_C14_Returns_POR"),
             dict(cfg="MCLifecycleSmall2", timeout=900, allow_timeout=True)]
-    pool = cf.ThreadPoolExecutor(max_workers=3 if ctx.thorough else 4)   # <= 6 TLC workers here + 2 for the generator
+    pool = cf.ThreadPoolExecutor(max_workers=2)   # <= 3 TLC workers here + 1 for the generator / the trace validation
     futs = [pool.submit(mc, **j) for j in jobs]
 
     def join_mc():
@@ -301,7 +393,7 @@ def replay_and_judge(ctx, join_mc, mcs, mc_counts):
     # 2. positions at the instant of the cancellation that the harness can force
     nconc = 3 if ctx.thorough else 2
     cfg = open(os.path.join(vlib.SPEC, FAMILY, "GenLifecycle.cfg")).read().replace("NConc = 2", "NConc = %d" % nconc)
-    g = vlib.run_tlc(ctx, FAMILY, "GenLifecycle", cfg, timeout=900, name="gen", heap="6g", workers=2)
+    g = vlib.run_tlc(ctx, FAMILY, "GenLifecycle", cfg, timeout=900, name="gen", heap="6g", workers=1)
     vlib.require_mc_ok(ctx, g, "GenLifecycle")
     states += g.distinct
     transitions += g.generated
@@ -428,6 +520,29 @@ def replay_and_judge(ctx, join_mc, mcs, mc_counts):
     bl_missing = sorted({(b, pk) for b in ("local", "remote") for pk in (False, True)} - bl_seen)
     if bl_missing and not new_viol:
         raise vlib.Inconclusive("coverage obligation not met: no scenario with > 32 validations finishing after the cancellation for (kind, loop parked) = %s" % bl_missing)
+    pre_seen = set()
+    pts_by_fam = {}
+    for k, ls in complete.items():
+        ex = [l for l in ls if l["e"] == "exit"]
+        if not ex:
+            continue
+        if ex[0].get("bl_pre") and ex[0].get("bl_n", 0) > 32:
+            pre_seen.add(ex[0]["backlog"])
+        pts_by_fam.setdefault(ex[0].get("fam", ""), set()).update(ex[0].get("atcancel") or [])
+    if {"local", "remote"} - pre_seen and not new_viol:
+        raise vlib.Inconclusive("coverage obligation not met: no backlog scenario finishing its validations while the loop is parked before Cancel for %s" % sorted({"local", "remote"} - pre_seen))
+    pts_missing, pts_hit = [], {}
+    for name, rx, fams in GOROUTINE_POINTS:
+        rxc = re.compile(rx)
+        hit = sorted(f for f, pts in pts_by_fam.items() if (fams is None or f in fams) and any(rxc.search(p) for p in pts))
+        pts_hit[name] = hit
+        if not hit:
+            pts_missing.append(name)
+    unknown_pts = sorted(p for pts in pts_by_fam.values() for p in pts if not any(re.search(rx, p) for _, rx, _ in GOROUTINE_POINTS))
+    if unknown_pts:
+        ctx.notes.append("library goroutines seen at the cancellation at %d blocking point(s) outside the obligation table, e.g. %s" % (len(set(unknown_pts)), sorted(set(unknown_pts))[:3]))
+    if pts_missing and not new_viol:
+        raise vlib.Inconclusive("coverage obligation not met: (goroutine, blocking point) never observed at the instant of the cancellation: %s" % pts_missing)
     need_phases = ["SelSend_Recv/handling", "SelSend_Recv/handoff", "SelSend_SelRecv/handling", "SelSend_SelRecv/handoff", "SelSend/handoff",
                    "SelSend_Unbuf/handoff", "Publish/validator", "Publish/handoff", "PublishBatch/after", "SubscribeDisc/handoff",
                    "SubscribeDisc/after", "CallerCtx/handoff"] + (["Publish/sendq", "PublishBatch/barefull"] if ctx.thorough else [])
@@ -449,9 +564,12 @@ def replay_and_judge(ctx, join_mc, mcs, mc_counts):
                        nconc, len(scns), len(shapes)),
            "exhaustive": False, "shapes_generated": len(shapes), "cells_required": len(need), "cells_observed": len(seen_cells & need),
            "position_hits": hits, "blocked_calls_explained_by_as_found_model": explained, "mc": mcs,
-           "backlog_scenarios_observed": sorted(bl_seen),
+           "backlog_scenarios_observed": sorted(bl_seen), "backlog_pre_observed": sorted(pre_seen),
+           "goroutine_points_required": len(GOROUTINE_POINTS), "goroutine_points_observed": len(GOROUTINE_POINTS) - len(pts_missing),
+           "goroutine_points": pts_hit, "goroutine_points_unreached": UNREACHED_POINTS,
            "as_found_configs_fail": ["MCLifecycleD9", "MCLifecycleD10", "MCLifecycleUnbuf", "MCLifecycleSmallD9",
-                                     "MCLifecycleSendMsg", "MCLifecycleSendMsgW"]}
+                                     "MCLifecycleSendMsg", "MCLifecycleSendMsgW", "MCLifecycleReaderCTA", "MCLifecycleRetryBare",
+                                     "MCLifecycleDirectBare"]}
     return vlib.finish(ctx, LEVEL, cov, [
         "validators and other application callbacks return when the instance context is cancelled or when the application releases them (the harness does both)",
         "Go's select picks among ready cases at random: which of several pending requests the released loop serves before it sees ctx.Done is sampled, the model covers all choices",
